@@ -491,6 +491,12 @@ def ddict_set_rules(prog, res):
                 arms = [strip_casts(f.resolve_x(a)) for a in (arg.get("t"), arg.get("f")) if isinstance(a, dict)]
                 arms = [a for a in arms if a is not None and const_val(a) != 0]
                 arg = arms[0] if len(arms) == 1 else arg
+            if arg is not None and arg.get("k") == "ref" and arg.get("rk") in ("l", "sl"):
+                # `dd = NULL; if (!skippable) dd = ZSTD_getDDict(zds); begin(zds, dd)`: a local that is only ever NULL or re-read from the context
+                ds = [strip_casts(f.resolve_x(d)) for d in f.local_defs().get(arg["n"], []) if d is not None]
+                nz = [d for d in ds if d is not None and const_val(d) != 0]
+                if nz and all(d.get("k") == "call" and d.get("c") == "ZSTD_getDDict" for d in nz):
+                    arg = nz[0]
             if arg is not None and arg.get("k") == "call":
                 sel += [t for t in look if not any(is_call(y, "ZSTD_DDictHashSet_getDDict") for y in walk(f.blocks[t[0]]["el"][t[1]]))]
             elif arg is not None and arg.get("k") == "ref":
